@@ -10,6 +10,7 @@ import (
 	"path/filepath"
 	"regexp"
 	"runtime"
+	"slices"
 	"sort"
 	"strings"
 	"sync"
@@ -81,6 +82,10 @@ func behPlan(b string) (string, string) {
 		return "ignore_wrapped", "render"
 	case "mixed":
 		return "render", "skip"
+	case "blank": // white space only
+		return "blank", "nothing"
+	case "defer_only": // nothing from GenerateType, something from the deferred callback
+		return "nothing_defer", "nothing"
 	}
 	return "render", "render"
 }
@@ -93,9 +98,10 @@ type pkgProj struct {
 }
 
 type outFile struct {
-	Pkg    string `json:"pkg"`
-	Gen    string `json:"gen"`
-	Digest string `json:"digest"`
+	Pkg     string `json:"pkg"`
+	Gen     string `json:"gen"`
+	Digest  string `json:"digest"`
+	Planted bool   `json:"planted"`
 }
 
 type change struct {
@@ -163,7 +169,7 @@ func project(root, layout string) (treeProj, error) {
 	for _, rel := range rels {
 		fi := snap[rel]
 		if fi.Pkg != "" && fi.Gen != "" {
-			tp.Outs = append(tp.Outs, outFile{Pkg: fi.Pkg, Gen: fi.Gen, Digest: fi.Digest})
+			tp.Outs = append(tp.Outs, outFile{Pkg: fi.Pkg, Gen: fi.Gen, Digest: fi.Digest, Planted: fi.Planted})
 		}
 	}
 	return tp, nil
@@ -241,6 +247,16 @@ func runStep(self, root, layout string, pc pipeCase, st pipeStep, scratch string
 				return nil, fmt.Errorf("fault %s at nested defer unsupported", st.Fault.Kind)
 			}
 			plan[pp+"|"+st.Fault.Gen+"|T1"] = "render_defer_nested_err"
+		case "qdefer": // the deferred callback of a generator that has rendered nothing for the package
+			if st.Fault.Kind != "err" {
+				return nil, fmt.Errorf("fault %s at quiet defer unsupported", st.Fault.Kind)
+			}
+			for k := range plan {
+				if strings.HasPrefix(k, pp+"|"+st.Fault.Gen+"|") {
+					plan[k] = "nothing"
+				}
+			}
+			plan[pp+"|"+st.Fault.Gen+"|T1"] = "nothing_defer_err"
 		case "defer":
 			switch st.Fault.Kind {
 			case "err":
@@ -388,6 +404,17 @@ func envStep(root, layout, variant string, st pipeStep, version int) error {
 			return os.WriteFile(p, []byte("this is not a sum file\n\x00\x01\n"), 0o644)
 		case "truncate":
 			return os.WriteFile(p, data[:len(data)/2], 0o644)
+		case "shuffle": // every entry kept, lines in reverse order
+			ls := strings.Split(strings.TrimSuffix(string(data), "\n"), "\n")
+			slices.Reverse(ls)
+			return os.WriteFile(p, []byte(strings.Join(ls, "\n")+"\n"), 0o644)
+		case "noise": // every entry kept: a duplicated line, a one-token junk line, an extra field, no final newline
+			if len(lines) > 0 && strings.HasSuffix(lines[0], "\n") {
+				first := lines[0]
+				lines[0] = strings.TrimSuffix(first, "\n") + " extra\n"
+				lines = append(lines, "=======\n", strings.TrimSuffix(first, "\n"))
+			}
+			return os.WriteFile(p, []byte(strings.Join(lines, "")), 0o644)
 		}
 		return fmt.Errorf("unknown corruption %q", st.Kind)
 	}
@@ -482,7 +509,7 @@ func (pipelineFam) Rand(n int, rng *rand.Rand, emit func(cas any)) error {
 	gensAll := []string{"a", "b", "c"}
 	users := []string{"user.go", pipe.Base + "x.go", pipe.Base, pipe.Base + ".old.go", "notes.txt"}
 	for i := 0; i < n; i++ {
-		pc := pipeCase{Layout: layouts[rng.IntN(3)], Newer: rng.IntN(2) == 0, Stateful: rng.IntN(2) == 0, Variant: []string{"plain", "shadow"}[rng.IntN(2)], Beh: [][]string{}, Steps: []pipeStep{}}
+		pc := pipeCase{Layout: layouts[rng.IntN(3)], Newer: rng.IntN(2) == 0, Stateful: rng.IntN(2) == 0, Variant: []string{"plain", "shadow", "split"}[rng.IntN(3)], Beh: [][]string{}, Steps: []pipeStep{}}
 		for _, p := range pkgs {
 			for _, g := range gensAll {
 				if rng.IntN(2) == 0 {
@@ -514,7 +541,7 @@ func (pipelineFam) Rand(n int, rng *rand.Rand, emit func(cas any)) error {
 			} else {
 				ops := []string{"edit", "adduser", "deluser", "delout", "delsum", "corruptsum"}
 				st := pipeStep{Op: ops[rng.IntN(len(ops))], Pkg: pkgs[rng.IntN(3)], File: users[rng.IntN(len(users))], Gen: gensAll[rng.IntN(3)],
-					Kind: []string{"drop", "wrong", "garbage", "truncate"}[rng.IntN(4)], Entry: []string{}, Gens: []string{}, Fault: pipeFault{Kind: "none"}}
+					Kind: []string{"drop", "wrong", "garbage", "truncate", "shuffle", "noise"}[rng.IntN(6)], Entry: []string{}, Gens: []string{}, Fault: pipeFault{Kind: "none"}}
 				pc.Steps = append(pc.Steps, st)
 			}
 		}
